@@ -327,8 +327,210 @@ func c17Aligned(pol chunker.Pol, seed int64, d int, tok *c17Tokens) []byte {
 	return nil
 }
 
+// ---------------------------------------------------------------- concurrent file workers
+
+// c17Gated delivers the first `before` bytes, then announces `reached` and waits for `resume`: the worker that reads
+// it is parked in the middle of the file while other workers process other files (a slow source next to fast ones).
+type c17Gated struct {
+	c17File
+	before  int
+	paused  bool
+	reached chan struct{}
+	resume  chan struct{}
+}
+
+func (g *c17Gated) Read(p []byte) (int, error) {
+	if !g.paused && g.pos >= g.before {
+		g.paused = true
+		close(g.reached)
+		<-g.resume
+	}
+	if !g.paused && len(p) > g.before-g.pos {
+		p = p[:g.before-g.pos]
+	}
+	return g.c17File.Read(p)
+}
+
+// c17ConcSaver remembers the size of every chunk by its ID (sha256 of the buffer as handed over).
+type c17ConcSaver struct {
+	mu    sync.Mutex
+	sizes map[restic.ID]int
+}
+
+func (s *c17ConcSaver) SaveBlobAsync(_ context.Context, _ restic.BlobType, buf []byte, _ restic.ID, _ bool, cb func(newID restic.ID, known bool, sizeInRepo int, err error)) {
+	id := restic.ID(sha256.Sum256(buf))
+	s.mu.Lock()
+	s.sizes[id] = len(buf)
+	s.mu.Unlock()
+	cb(id, false, len(buf), nil)
+}
+
+func (s *c17ConcSaver) run(content []byte, fnr futureNodeResult, pattern string, pos int, tok *c17Tokens) c17Run {
+	run := c17Run{Pattern: pattern, Pos: pos, Cuts: []int{}, Hashes: []int{}}
+	if fnr.err != nil || fnr.node == nil {
+		run.Err = true
+		if fnr.err != nil {
+			run.ErrText = fnr.err.Error()
+		}
+		return run
+	}
+	off, ok := 0, true
+	for _, id := range fnr.node.Content {
+		s.mu.Lock()
+		n, known := s.sizes[id]
+		s.mu.Unlock()
+		if !known || n == 0 {
+			ok = false
+			break
+		}
+		end := off + n
+		if end > len(content) {
+			ok = false
+			end = len(content)
+		}
+		if ok && restic.ID(sha256.Sum256(content[off:end])) != id {
+			ok = false
+		}
+		off += n
+		run.Cuts = append(run.Cuts, off)
+		run.Hashes = append(run.Hashes, tok.of([32]byte(id)))
+	}
+	if off != len(content) || int(fnr.node.Size) != len(content) {
+		ok = false
+	}
+	run.HashOK = ok
+	return run
+}
+
+type c17ConcScenario struct {
+	name    string
+	workers int
+	slow    []int // for every slow file: bytes delivered before its worker is parked
+	others  []int // sizes of the files the remaining worker processes meanwhile (negative: all-zero file of that size)
+}
+
+// c17Concurrent saves several files at the same time through one real fileSaver with >= 2 workers. Gated readers make
+// the overlap deterministic: the slow files are parked in the middle, the free worker processes the other files
+// completely, then the slow files continue one by one. Every file's chunks are compared (by Fn_Chunks!GroupOK) with
+// the library reference for the same content: boundaries depend on the content only, not on the neighbours.
+func c17Concurrent(t *testing.T, factory restic.ChunkerFactory, pol chunker.Pol, tok *c17Tokens, recs *kit.NDJSON, res *kit.Result, seed int64, rng *rand.Rand) {
+	buf := chunkReadBufSize
+	scns := []c17ConcScenario{
+		{"tiny-in-between", 2, []int{buf}, []int{11}},
+		{"small-at-start", 2, []int{0}, []int{300000}},
+		{"medium-after-second-buffer", 2, []int{2 * buf}, []int{700000}},
+		{"large-in-between", 2, []int{3 * buf}, []int{3*c17MiB + 17, 1*c17MiB + 4099}},
+		{"zero-in-between", 2, []int{buf + 1000}, []int{-(2*c17MiB + 100)}},
+		{"three-workers-two-slow", 3, []int{buf + 5, 4*buf + 1}, []int{2*c17MiB + 3, 900000}},
+	}
+	for i := 0; i < kit.Pick(2, 12); i++ {
+		w := 2 + rng.Intn(2)
+		sc := c17ConcScenario{name: "random", workers: w}
+		for k := 0; k < w-1; k++ {
+			sc.slow = append(sc.slow, rng.Intn(5*c17MiB))
+		}
+		for k := 1 + rng.Intn(3); k > 0; k-- {
+			sc.others = append(sc.others, 1+rng.Intn(4*c17MiB))
+		}
+		scns = append(scns, sc)
+	}
+	emit := func(sc c17ConcScenario, role string, content []byte, run c17Run) {
+		class := "concurrent/" + sc.name + "/" + role
+		recs.Write(map[string]any{"kind": "group", "class": class, "size": len(content), "seed": seed, "runs": []c17Run{c17LibRun(content, pol, tok), run}})
+		res.Case(fmt.Sprintf("%s|%d|%d", class, sc.workers, len(content)), len(run.Cuts) >= 2)
+		res.Count("concurrent_groups", 1)
+	}
+	for si, sc := range scns {
+		ctx, cancel := context.WithCancel(context.Background())
+		wg, wctx := errgroup.WithContext(ctx)
+		saver := &c17ConcSaver{sizes: map[restic.ID]int{}}
+		s := newFileSaver(wctx, wg, saver, factory, uint(sc.workers))
+		s.NodeFromFileInfo = func(snPath, filename string, meta toNoder, ignoreXattrListError bool) (*data.Node, error) {
+			return meta.ToNode(ignoreXattrListError, func(string, ...any) {})
+		}
+		nop := func() {}
+		type slowFile struct {
+			content []byte
+			g       *c17Gated
+			fut     futureNode
+		}
+		var slows []*slowFile
+		stuck := false
+		for k, before := range sc.slow {
+			content := c17Content("random", 5*c17MiB+4711+k*70001, seed*500+int64(si*10+k))
+			g := &c17Gated{c17File: c17File{data: content, pattern: "full", rng: rand.New(rand.NewSource(1))}, before: before,
+				reached: make(chan struct{}), resume: make(chan struct{})}
+			sf := &slowFile{content: content, g: g}
+			sf.fut = s.Save(wctx, "/slow", "slow", g, nop, nop, func(*data.Node, ItemStats) {})
+			select {
+			case <-g.reached:
+			case <-time.After(2 * time.Minute):
+				res.Problem("concurrent scenario %s: slow file %d never reached its gate", sc.name, k)
+				stuck = true
+			}
+			slows = append(slows, sf)
+		}
+		if !stuck {
+			other := func(k, size int) {
+				var content []byte
+				if size < 0 {
+					content = c17Content("zero", -size, 0)
+				} else {
+					content = c17Content("random", size, seed*700+int64(si*10+k))
+				}
+				f := &c17File{data: content, pattern: []string{"full", "p65537", "random"}[(si+k)%3], rng: rand.New(rand.NewSource(int64(k)))}
+				fut := s.Save(wctx, "/other", "other", f, nop, nop, func(*data.Node, ItemStats) {})
+				emit(sc, fmt.Sprintf("other%d", k), content, saver.run(content, fut.take(wctx), "concurrent/"+f.pattern, k, tok))
+			}
+			for k, size := range sc.others {
+				other(k, size)
+			}
+			for k, sf := range slows {
+				close(sf.g.resume)
+				emit(sc, fmt.Sprintf("slow%d", k), sf.content, saver.run(sf.content, sf.fut.take(wctx), "concurrent/gated", 0, tok))
+				if k+1 < len(slows) {
+					other(100+k, 600000+k) // one more file while the next slow file is still parked
+				}
+			}
+		} else {
+			for _, sf := range slows {
+				close(sf.g.resume)
+			}
+		}
+		s.TriggerShutdown()
+		_ = wg.Wait()
+		cancel()
+	}
+	// free-running: three files submitted at the same time to two workers, no gates (the scheduler decides the overlap)
+	for round := 0; round < kit.Pick(2, 10); round++ {
+		ctx, cancel := context.WithCancel(context.Background())
+		wg, wctx := errgroup.WithContext(ctx)
+		saver := &c17ConcSaver{sizes: map[restic.ID]int{}}
+		s := newFileSaver(wctx, wg, saver, factory, 2)
+		s.NodeFromFileInfo = func(snPath, filename string, meta toNoder, ignoreXattrListError bool) (*data.Node, error) {
+			return meta.ToNode(ignoreXattrListError, func(string, ...any) {})
+		}
+		nop := func() {}
+		sc := c17ConcScenario{name: "free-running", workers: 2}
+		var contents [][]byte
+		var futs []futureNode
+		for k := 0; k < 3; k++ {
+			content := c17Content("random", 1*c17MiB+rng.Intn(3*c17MiB), seed*900+int64(round*10+k))
+			f := &c17File{data: content, pattern: []string{"p65537", "random", "half"}[k], rng: rand.New(rand.NewSource(int64(k)))}
+			contents = append(contents, content)
+			futs = append(futs, s.Save(wctx, "/free", "free", f, nop, nop, func(*data.Node, ItemStats) {}))
+		}
+		for k := range futs {
+			emit(sc, fmt.Sprintf("file%d", k), contents[k], saver.run(contents[k], futs[k].take(wctx), "concurrent/free", k, tok))
+		}
+		s.TriggerShutdown()
+		_ = wg.Wait()
+		cancel()
+	}
+}
+
 func TestVerif_C17(t *testing.T) {
-	res := kit.NewResult("one case = one file pushed through the real fileSaver worker with one read pattern at one position of the worker's file sequence (group records), or one (file, edited copy) pair (edit records); distinct by (content class, size, pattern, position class) resp. (content class, edit kind, offset class); non-trivial when the file has at least two chunks")
+	res := kit.NewResult("one case = one file pushed through the real fileSaver worker with one read pattern at one position of the worker's file sequence (group records; also files saved concurrently by 2-3 workers of one fileSaver, each compared with the library reference), or one (file, edited copy) pair (edit records); distinct by (content class, size, pattern, position class) resp. (content class, edit kind, offset class); non-trivial when the file has at least two chunks")
 	recs := kit.NewNDJSON("recs.ndjson")
 	defer recs.Close()
 	repo := repository.TestRepository(t)
@@ -445,6 +647,9 @@ func TestVerif_C17(t *testing.T) {
 		}
 	}
 	res.Count("groups", groups)
+
+	// ---- several file workers at the same time
+	c17Concurrent(t, factory, pol, tok, recs, res, seed, kit.Rand(1717))
 
 	// ---- edits
 	type editCase struct {
